@@ -10,8 +10,8 @@ import "math/big"
 var (
 	// x25519A24 is the RFC 7748 constant a24 = (486662 - 2) / 4 = 121665.
 	x25519A24 = big.NewInt(121665)
-	// MontA is the Montgomery coefficient A = 486662 of curve25519.
-	MontA = big.NewInt(486662)
+	// X25519MontA is the Montgomery coefficient A = 486662 of curve25519.
+	X25519MontA = big.NewInt(486662)
 )
 
 // X25519DecodeLittleEndian is RFC 7748 decodeLittleEndian(b, 255).
@@ -136,23 +136,23 @@ func X25519BasepointU() []byte { return append([]byte{9}, make([]byte, 31)...) }
 // i.e. u = 0).  X25519's x-only function is u([k]P) with the point at
 // infinity mapped to 0 (Bernstein, "Curve25519", Theorem 2.1).
 
-// MontRHS returns u^3 + A u^2 + u.
-func MontRHS(u *big.Int) *big.Int {
+// X25519MontRHS returns u^3 + A u^2 + u.
+func X25519MontRHS(u *big.Int) *big.Int {
 	u = FMod(u)
 	u2 := FSqr(u)
-	return FAdd(FAdd(FMul(u2, u), FMul(MontA, u2)), u)
+	return FAdd(FAdd(FMul(u2, u), FMul(X25519MontA, u2)), u)
 }
 
-// MontOnCurve reports whether u is the u-coordinate of a point of curve25519
+// X25519OnCurve reports whether u is the u-coordinate of a point of curve25519
 // itself (u^3 + A u^2 + u is a square, 0 included); otherwise u is on the twist.
-func MontOnCurve(u *big.Int) bool { return FIsSquare(MontRHS(u)) }
+func X25519OnCurve(u *big.Int) bool { return FIsSquare(X25519MontRHS(u)) }
 
-type montPt struct {
+type x25519Pt struct {
 	u, v *big.Int
 	inf  bool
 }
 
-func montAdd(b *big.Int, p, q montPt) montPt {
+func x25519PtAdd(b *big.Int, p, q x25519Pt) x25519Pt {
 	if p.inf {
 		return q
 	}
@@ -162,18 +162,18 @@ func montAdd(b *big.Int, p, q montPt) montPt {
 	var lam *big.Int
 	if p.u.Cmp(q.u) == 0 {
 		if FAdd(p.v, q.v).Sign() == 0 {
-			return montPt{inf: true} // P + (-P), includes doubling a 2-torsion point
+			return x25519Pt{inf: true} // P + (-P), includes doubling a 2-torsion point
 		}
 		// doubling: lambda = (3u^2 + 2Au + 1) / (2Bv)
-		num := FAdd(FAdd(FMul(bi(3), FSqr(p.u)), FMul(FMul(big2, MontA), p.u)), big1)
+		num := FAdd(FAdd(FMul(bi(3), FSqr(p.u)), FMul(FMul(big2, X25519MontA), p.u)), big1)
 		lam = FDiv(num, FMul(FMul(big2, b), p.v))
 	} else {
 		lam = FDiv(FSub(q.v, p.v), FSub(q.u, p.u))
 	}
 	// u3 = B lambda^2 - A - u1 - u2 ; v3 = lambda (u1 - u3) - v1
-	u3 := FSub(FSub(FSub(FMul(b, FSqr(lam)), MontA), p.u), q.u)
+	u3 := FSub(FSub(FSub(FMul(b, FSqr(lam)), X25519MontA), p.u), q.u)
 	v3 := FSub(FMul(lam, FSub(p.u, u3)), p.v)
-	return montPt{u: u3, v: v3}
+	return x25519Pt{u: u3, v: v3}
 }
 
 // X25519Math returns u([k]P) for a point P with u-coordinate u (mod p) on
@@ -181,7 +181,7 @@ func montAdd(b *big.Int, p, q montPt) montPt {
 // infinity maps to 0.  k >= 0.
 func X25519Math(k, u *big.Int) *big.Int {
 	u = FMod(u)
-	rhs := MontRHS(u)
+	rhs := X25519MontRHS(u)
 	b := big.NewInt(1)
 	v, ok := FSqrt(rhs)
 	if !ok {
@@ -191,15 +191,15 @@ func X25519Math(k, u *big.Int) *big.Int {
 			panic("verifref: u is on neither curve nor twist")
 		}
 	}
-	p := montPt{u: u, v: v}
-	if !montOn(b, p) {
+	p := x25519Pt{u: u, v: v}
+	if !x25519PtOn(b, p) {
 		panic("verifref: lifted point not on curve")
 	}
-	r := montPt{inf: true}
+	r := x25519Pt{inf: true}
 	for i := k.BitLen() - 1; i >= 0; i-- {
-		r = montAdd(b, r, r)
+		r = x25519PtAdd(b, r, r)
 		if k.Bit(i) == 1 {
-			r = montAdd(b, r, p)
+			r = x25519PtAdd(b, r, p)
 		}
 	}
 	if r.inf {
@@ -208,8 +208,8 @@ func X25519Math(k, u *big.Int) *big.Int {
 	return r.u
 }
 
-func montOn(b *big.Int, p montPt) bool {
-	return FMul(b, FSqr(p.v)).Cmp(MontRHS(p.u)) == 0
+func x25519PtOn(b *big.Int, p x25519Pt) bool {
+	return FMul(b, FSqr(p.v)).Cmp(X25519MontRHS(p.u)) == 0
 }
 
 // X25519LowOrderU returns the u-coordinates (reduced) of all points of small
